@@ -54,6 +54,8 @@ CALLBACKS = [
     ('count', lambda names: '%d objs' % len(list(names)), lambda names: ''),
     ('objects-only', lambda names: '[%s]' % '+'.join(names), None),
     ('properties-only', None, lambda names: '(%s)' % '/'.join(names)),
+    # callbacks that look at their argument more than once
+    ('two-pass', lambda names: '%d:%s' % (len(tuple(names)), '+'.join(names)), lambda names: '%s|%s' % ('/'.join(names), '/'.join(sorted(names)))),
 ]
 
 
@@ -69,9 +71,16 @@ def run(run):
         ans = d.ask('dot').split(' ')
         with guard(run, 'lattice', [pc.line]):
             L = pc.ctx.lattice
-        order = list(CALLBACKS)
+        order = [(name, mo, mp, L) for name, mo, mp in CALLBACKS]
         run.rng.shuffle(order)
-        for name, mo, mp in order:
+        if len(L) <= 120 and run.evaluations % 3 == 0:
+            import copy
+            import pickle
+            with guard(run, 'pickle / copy of the lattice', [pc.line, 'dot']):
+                order.append(('default on a pickle round trip', None, None, pickle.loads(pickle.dumps(L))))
+                order.append(('default on copy.copy', None, None, copy.copy(L)))
+                order.append(('default again on the original', None, None, L))
+        for name, mo, mp, L in order:
             kw = {}
             if mo is not None:
                 kw['make_object_label'] = mo
